@@ -167,7 +167,7 @@ def facts_at(func, node):
     def kill(stmts_):
         names, stored = _rebound(stmts_)
         for st_ in stmts_:
-            stored |= _inplace_written(st_)
+            stored |= _inplace_written(st_, grp)
         if stored:
             # the object may be known under other names as well (`u = v`, a view, a pointer)
             stored = _alias.closure_of(stored, grp)
